@@ -392,7 +392,7 @@ func (a *PillarApi) GetPillarEpochHistory(pillarName string, pageIndex, pageSize
 		return nil, err
 	}
 
-	epoch := lastEpoch.LastEpoch - int64(pageIndex*pageSize)
+	epoch := lastEpoch.LastEpoch - int64(pageIndex)*int64(pageSize)
 
 	result := &PillarEpochHistoryList{
 		Count: lastEpoch.LastEpoch + 1,
